@@ -24,6 +24,7 @@ import Upnp.Spec.C10
 import Upnp.Spec.C09
 namespace Upnp.C11
 open Upnp PyDict Upnp.C09 Upnp.C10
+variable [FloatOracle]
 
 def hdrsOk (h : NHeaders) : Bool :=
   h.nt == some ntEvent && h.nts == some ntsPropchange && h.sid.isSome
@@ -31,7 +32,7 @@ def hdrsOk (h : NHeaders) : Bool :=
 structure Obs where
   ev : Ev
   out : Out
-  vals : List (List (Str × Option Val))   -- after the event: per service, per variable, `.value`
+  vals : List (List (Str × Val))   -- after the event: per service, per variable, `.value`
   cbs : List Nat := []                    -- after the event: per service, number of `on_event` invocations so far
 deriving Repr
 
@@ -47,7 +48,7 @@ def grantedSid (js : JS) (i : Nat) : Option Str := (js.granted.find? (·.1 == i)
 
 def evInScope (js : JS) : Ev → Bool
   | .start svc _ => !js.started.contains svc
-  | .notify n => !hdrsOk n.hdrs || bodyWF n.body
+  | .notify n => !hdrsOk n.hdrs || (!n.malformed && bodyWF n.body)
   | .respond svc r =>
     !js.pend.contains svc ||
     (match r with
@@ -83,32 +84,32 @@ def latestText (x : Str) (sid : Str) (seen : List Notify) : Option Str :=
   ((seen.filter (fun n => n.hdrs.sid == some sid)).filterMap (fun n => carried x n.body)).getLast?
 
 /-- what the variable must read; `none` = no demand (the latest text is not a valid value) -/
-def expectedVal (d : Decl) (sid : Option Str) (seen : List Notify) : Option (Option Val) :=
+def expectedVal (d : Var) (sid : Option Str) (seen : List Notify) : Option Val :=
   match sid with
-  | none => some none
+  | none => some .none
   | some s =>
-    match latestText d.name s seen with
-    | none => some none
+    match latestText d.decl.name s seen with
+    | none => some .none
     | some text =>
-      match convert (inKindOf d.dtype) text with
-      | some v => if validate d v then some (some v) else none
-      | none => none
+      match convert d text with
+      | .ok v => if validate d v then some v else none
+      | .error _ => none
 
-def svcValsOk (ds : List Decl) (sid : Option Str) (seen : List Notify) (vs : List (Str × Option Val)) : Bool :=
+def svcValsOk (ds : List Var) (sid : Option Str) (seen : List Notify) (vs : List (Str × Val)) : Bool :=
   vs.length == ds.length &&
-  (ds.zip vs).all fun p => p.2.1 == p.1.name &&
+  (ds.zip vs).all fun p => p.2.1 == p.1.decl.name &&
     (match expectedVal p.1 sid seen with | some e => p.2.2 == e | none => true)
 
 /-- every service, by index -/
-def valsOkAux (js : JS) : Nat → List (List Decl) → List (List (Str × Option Val)) → Bool
+def valsOkAux (js : JS) : Nat → List (List Var) → List (List (Str × Val)) → Bool
   | _, [], [] => true
   | k, ds :: dr, vs :: vr => svcValsOk ds (grantedSid js k) js.seen vs && valsOkAux js (k + 1) dr vr
   | _, _, _ => false
 
-def valsOk (decls : List (List Decl)) (js : JS) (vals : List (List (Str × Option Val))) : Bool :=
+def valsOk (decls : List (List Var)) (js : JS) (vals : List (List (Str × Val))) : Bool :=
   valsOkAux js 0 decls vals
 
-def cbsOk (decls : List (List Decl)) (js : JS) (cbs : List Nat) : Bool :=
+def cbsOk (decls : List (List Var)) (js : JS) (cbs : List Nat) : Bool :=
   cbs.length == decls.length && cbsOkAux js 0 cbs
 
 def outOk (o : Obs) : Bool :=
@@ -116,7 +117,7 @@ def outOk (o : Obs) : Bool :=
   | .notify n => if hdrsOk n.hdrs then (match o.out with | .notified (.status 200) => true | _ => false) else true
   | _ => true
 
-def okFrom (decls : List (List Decl)) : JS → List Obs → Bool
+def okFrom (decls : List (List Var)) : JS → List Obs → Bool
   | _, [] => true
   | js, o :: rest =>
     if evInScope js o.ev then
@@ -125,7 +126,7 @@ def okFrom (decls : List (List Decl)) : JS → List Obs → Bool
     else true
 
 /-- **C11.ok** -/
-def ok (decls : List (List Decl)) (h : List Obs) : Bool := okFrom decls {} h
+def ok (decls : List (List Var)) (h : List Obs) : Bool := okFrom decls {} h
 
 /-- the whole schedule is inside the domain -/
 def allInScope : JS → List Ev → Bool
@@ -134,11 +135,11 @@ def allInScope : JS → List Ev → Bool
 
 /-! ### the model's observations -/
 
-def initSvc (ds : List Decl) : Svc := { vars := ds.map fun d => { decl := d } }
-def initSt (decls : List (List Decl)) : St := { h := { svcs := decls.map initSvc } }
+def initSvc (ds : List Var) : Svc := { vars := ds.map Var.blank }
+def initSt (decls : List (List Var)) : St := { h := { svcs := decls.map initSvc } }
 
-def readVals (s : St) : List (List (Str × Option Val)) :=
-  s.h.svcs.map fun sv => sv.vars.map fun v => (v.decl.name, v.st.stored.read)
+def readVals (s : St) : List (List (Str × Val)) :=
+  s.h.svcs.map fun sv => sv.vars.map fun v => (v.decl.name, Stored.read v.st.stored)
 
 def readCbs (s : St) : List Nat := s.h.svcs.map (·.events.length)
 
